@@ -647,6 +647,9 @@ func (n *Node) emit(leg *Leg, snd, dst *world.Account) {
 }
 
 func (n *Node) refund(leg *Leg, msg *Message) {
+	if n.shardOf(msg.From) >= n.W.NumShards {
+		return // the origin lives on the metachain: its refund is not executed by a built-in function here
+	}
 	k := transferPartLen(msg.Func, msg.Args)
 	if k > len(msg.Args) {
 		k = len(msg.Args)
